@@ -284,6 +284,15 @@ func main() {
 	core.ParseFlags()
 	node.Quiet()
 	node.DropEngineGoroutines() // see mc/node/tasks.go
+	if os.Getenv("C05_TERM_COUNT") != "" {
+		for _, p := range termPlans() {
+			sc := tScenarios[p.scen]
+			a := alphabetFor(curTermOf(sc), p.alpha)
+			fmt.Printf("%s %s letters=%d K=%d histories=%d\n", p.scen, p.alpha, len(a), p.k, len(windowHistories(sc, a, p.k)))
+		}
+		fmt.Println("total (deduplicated):", len(enumerateTerm()))
+		return
+	}
 	if os.Getenv("C05_TERM_PROBE") != "" {
 		tProbe()
 		return
